@@ -443,8 +443,8 @@ func genValue(r *prng.R) []byte {
 	switch r.Intn(10) {
 	case 0:
 		return []byte{}
-	case 1:
-		return r.Bytes(65535 + r.Intn(3))
+	case 1: // (kept below 2 KiB: the Coq byte-string literal is quadratic in its length)
+		return r.Bytes(1500 + r.Intn(3))
 	case 2:
 		return r.Bytes(255 + r.Intn(3))
 	default:
@@ -470,7 +470,7 @@ func genHashPtr(r *prng.R) *string {
 func genInodeCase(r *prng.R) Case {
 	lbl := r.Intn(200)
 	if r.Chance(10) {
-		lbl = []int{0, 1, 7, 8, 9, 65535, 65528, 4096}[r.Intn(8)]
+		lbl = []int{0, 1, 7, 8, 9, 2047, 2048, 4096}[r.Intn(8)]
 	}
 	c := Case{Lbl: uint16(lbl), Label: hex.EncodeToString(r.Bytes(node.Depth(lbl).ToBytes()))}
 	if r.Chance(60) {
@@ -847,10 +847,21 @@ func runModel(seed uint64, n int, out string, rc *Case) {
 		seen[key] = true
 		sum.Count("outcome:"+c.Kind, o.class)
 		og := c.Origin
-		if i := strings.Index(og, ":"); i >= 0 {
+		if i := strings.IndexAny(og, ":@+0123456789"); i >= 0 {
 			og = og[:i]
 		}
+		if og == "" {
+			og = "constructed"
+		}
 		sum.Count("origin", og)
+		if i := strings.Index(c.Origin, "+"); i >= 0 && (c.Kind == "walk" || c.Kind == "proof") {
+			sum.Count("proof-list-mutation", c.Origin[i+1:])
+		}
+		if strings.HasPrefix(c.Origin, "field@") {
+			if parts := strings.Split(c.Origin, ":"); len(parts) > 1 {
+				sum.Count("field-mutation", parts[1])
+			}
+		}
 		if l := len(c.Data) / 2; l > 0 && !strings.HasPrefix(c.Kind, "enc") {
 			if ratio := float64(o.g.alloc) / float64(l+64); ratio > maxRatio {
 				maxRatio = ratio
